@@ -7,6 +7,7 @@ simulates a *new* frame), `advanceLockstepFrame` is `advance_lockstep_frame`, `l
 -/
 import GgrsModel.Model.Inventory
 import GgrsModel.Proofs.Demo
+import GgrsModel.Proofs.PairLockstep
 import GgrsModel.Model.Sites.SyncLayer
 import GgrsModel.Model.Sites.P2pSession
 import GgrsModel.Model.P2P
@@ -330,6 +331,40 @@ theorem C04_lockstep_nonvacuous :
     (getOk (lkTick demoLk 5)).2 = [] ∧ demoLk1.sync.currentFrame = 0 ∧
     (getOk (lkTick demoLk1r 5)).2 = [.advance [(5, .confirmed), (9, .confirmed)]] ∧ demoLk2.sync.currentFrame = 1 :=
   ⟨⟨_, LkInv_init demoLk (fun _ => []) 2 rfl rfl rfl⟩, demo_lockstep_run _, demo_lk_facts⟩
+
+end Ggrs
+
+namespace Ggrs
+
+/-- **C04/C01 in lockstep across two peers.** Two lockstep sessions (prediction window 0) side by side
+(`Proofs/PairLockstep.lean`): either user submits local inputs, either session calls
+`advance_frame` (its game executing the requests), and the next frame of a player of the other peer
+arrives, read off the owner's queue. After ANY such run every frame both games have simulated
+carries, for every player owned by one of the two sessions, the SAME input in both timelines: a
+lockstep session only simulates a frame once everybody's real input for it is there, so nothing is
+ever predicted, nothing re-simulated, and the two timelines coincide outright (with
+`C01_lockstep_replay`: the two games are in the same state at every frame both have reached). -/
+theorem C04_lockstep_agree_two_peers (x y : (P2P × TLState) × (P2P × TLState)) (h0 : LkPPInv x) (hrun : LkPStar x y) :
+    ∀ p, ((p ∈ y.1.1.localPlayerHandles ∧ p ∉ y.2.1.localPlayerHandles) ∨
+          (p ∈ y.2.1.localPlayerHandles ∧ p ∉ y.1.1.localPlayerHandles)) →
+      p < y.1.1.sync.queues.length → p < y.2.1.sync.queues.length → ∀ f : Nat,
+      (f : Int) < y.1.1.sync.currentFrame → (f : Int) < y.2.1.sync.currentFrame →
+      ((y.1.2.R f).getD p default).1 = ((y.2.2.R f).getD p default).1 :=
+  lkpair_agree x y h0 hrun
+
+/-- Two freshly built lockstep sessions satisfy the invariant of the lockstep pair. -/
+theorem C04_lockstep_pair_init (a b : P2P) (RA RB : Nat → List (Input × InputStatus)) (n : Nat)
+    (hqa : a.sync.queues = List.replicate n InputQueue.new) (hsta : a.localConnectStatus = List.replicate n {})
+    (hca : a.sync.currentFrame = 0) (hoa : a.outgoingLocalInputs = []) (hna : a.nextSpectatorFrame = 0)
+    (hqb : b.sync.queues = List.replicate n InputQueue.new) (hstb : b.localConnectStatus = List.replicate n {})
+    (hcb : b.sync.currentFrame = 0) (hob : b.outgoingLocalInputs = []) (hnb : b.nextSpectatorFrame = 0) :
+    LkPPInv ((a, ⟨0, RA⟩), (b, ⟨0, RB⟩)) := by
+  refine ⟨_, _, LkInv_init a RA n hqa hsta hca, GlueInv_init a _ n (fun _ => rfl) hoa hsta (by rw [hqa]; simp), ?_,
+    LkInv_init b RB n hqb hstb hcb, GlueInv_init b _ n (fun _ => rfl) hob hstb (by rw [hqb]; simp), ?_, ?_, ?_⟩
+  · show 0 ≤ a.nextSpectatorFrame; rw [hna]; exact Int.le_refl _
+  · show 0 ≤ b.nextSpectatorFrame; rw [hnb]; exact Int.le_refl _
+  · intro p _ _; exact PrefixOf.refl _
+  · intro p _ _; exact PrefixOf.refl _
 
 end Ggrs
 
